@@ -45,7 +45,7 @@ def bad(kk, sec):
 def casemap(case, x):
     cs = z3.simplify(case)
     if z3.is_string_value(cs):
-        return {"upper": upper(x), "lower": lower(x), "preserve": x}[cs.as_string()]
+        return {"upper": upper(x), "lower": lower(x), "preserve": x}[pystr(cs)]
     return z3.If(case == z3.StringVal("upper"), upper(x), z3.If(case == z3.StringVal("lower"), lower(x), x))
 
 
